@@ -130,3 +130,24 @@ Print Assumptions C01_loops_and_blocks_meaning_preserved.
 Theorem C01_loops_and_blocks_statement_lists : forall n, Q_lgo n /\ Q_lloop n.
 Proof. exact trlk_correct. Qed.
 Print Assumptions C01_loops_and_blocks_statement_lists.
+
+(* ... and for the emitted definition as a whole: the curried header and the
+   recursion binder of the loop fragment's functions, applied to the arguments
+   (or to the unit value for a function without parameters) *)
+From GV Require Import Tr.MiniGoLFunc.
+
+Theorem C01_loops_and_blocks_functions : forall n fn f args v s',
+  trl_func fn = Some f ->
+  NoDup (lf_name fn :: map fst (lf_params fn)) -> lf_params fn <> [] ->
+  length args = length (lf_params fn) ->
+  lgo_call n fn args = LRet v s' ->
+  exists m, eval m (fold_left App (map Val args) (Val f)) state0 = RVal v s'.
+Proof. exact lfunc_correct. Qed.
+Print Assumptions C01_loops_and_blocks_functions.
+
+Theorem C01_loops_and_blocks_nullary_functions : forall n fn f v s',
+  trl_func fn = Some f -> lf_params fn = [] ->
+  lgo_call n fn [] = LRet v s' ->
+  exists m, eval m (App (Val f) (Val vunit)) state0 = RVal v s'.
+Proof. exact lfunc_correct_nullary. Qed.
+Print Assumptions C01_loops_and_blocks_nullary_functions.
